@@ -8,10 +8,11 @@ class C10(Check):
     id = 'C10'
     module = 'Xrl.Props.C10'
     namespace = 'Xrl.C10'
-    extra_modules = [('Xrl.Props.C10b', 'Xrl.C10')]
+    extra_modules = [('Xrl.Props.C10b', 'Xrl.C10'), ('Xrl.Props.C10c', 'Xrl.C10')]
     functions = ['LineEnergy', 'LineEnergyComposed', 'RadRate']
-    assumptions = ['L-beta energy (cross-section weighted mean) is specified through C09; here no claim (Expect.any) — covered by correspondence only',
-                   'group_energy_between assumes non-negative rates (data invariant, holds for the shipped tables: checked by the search)']
+    assumptions = ['line_energy_between / line_energy_in_range assume non-negative rates (K-alpha, K-beta: Spec.ratesNegative = []) and non-negative L-beta weights '
+                   '(Spec.lbWeightsNegative = []): data invariants, executed on the loaded tables by every run of this check',
+                   'L-beta: the C09 shape hypotheses (hP, hO) of line_energy_lb_spec']
 
     def domain(self):
         for Z in range(-3, 126):
@@ -54,9 +55,33 @@ class C10(Check):
                 if not es or not (min(es) * (1 - 1e-12) <= v <= max(es) * (1 + 1e-12)):
                     viol.append(dict(key='LineEnergy %d %d E' % (Z, g), got=repr(v), expected='between %r' % ([min(es), max(es)] if es else 'no member has an energy'),
                                      what='group energy outside the range of its member energies'))
+        # the same clause through the specification's own range (Spec.groupRange: smallest / largest positive member energy, for EVERY grouped
+        # macro incl. L-beta), and the text's other half: a group with a member energy has an energy, a group without one is an error
+        try:
+            gl = [(Z, g) for Z in range(1, 121) for g in GROUPS if g not in (-16, -24)]
+            ro = ctx.run_model(['spec.groupRange %d %d' % zg for zg in gl])
+            nrange = 0
+            for (Z, g), r_ in zip(gl, ro):
+                v = val.get(('LineEnergy', Z, g))
+                if r_.startswith('range'):
+                    lo, hi = [core.unhx(t_) for t_ in r_.split(' ')[1:3]]; nrange += 1
+                    if v is None:
+                        viol.append(dict(key='LineEnergy %d %d E' % (Z, g), got='error', expected='a value in [%r, %r]' % (lo, hi), what='a member line has an energy, yet the group energy is an error ("falling back to the plain mean of the members that have an energy")'))
+                    elif not (lo * (1 - 1e-12) <= v <= hi * (1 + 1e-12)):
+                        viol.append(dict(key='LineEnergy %d %d E' % (Z, g), got=repr(v), expected='in [%r, %r]' % (lo, hi), what='group energy outside Spec.groupRange (smallest / largest member energy)'))
+                elif r_ == 'none' and v is not None:
+                    viol.append(dict(key='LineEnergy %d %d E' % (Z, g), got=repr(v), expected='error: no member has an energy', what='group energy without any member energy'))
+            stats['group_ranges_checked'] = nrange
+            inv = ctx.run_model(['spec.ratesNegative', 'spec.lbWeightsNegative', 'spec.rateWithoutEnergy', 'spec.fallbackCases'])
+            for nm, o in zip(('ratesNegative', 'lbWeightsNegative'), inv):
+                if o.strip() != 'list []':
+                    viol.append(dict(key='spec.' + nm, got=o[:200], expected='list []', what='data hypothesis of C10.line_energy_between fails on the tables built from the working tree'))
+            stats['rate_without_energy'] = inv[2][:200]; stats['fallback_cases'] = inv[3][:300]
+        except core.BuildError:
+            pass
         # ---- L-beta (macro 3): the cross-section-weighted mean of exactly its member lines — the Siegbahn aliases LB1..LB17 of the
         #      header plus L3N6, L3N7, each weighted by CS_FluorLine at 0.1 keV above the edge of the member's own shell (the shell is
-        #      read off the member's NAME); an error when no member carries weight.  Computed from the library's own primitives.
+        #      read off the member's NAME); the plain mean of the member energies when no member carries weight, an error when no member has an energy.  Computed from the library's own primitives.
         import json, re as _re
         from vlib.core import hx
         hv = json.load(open(ctx.sc.path('aux', 'hdr_vals.json')))
@@ -78,18 +103,19 @@ class C10(Check):
                     q2.append('CS_FluorLine %d %d %s N' % (Z, m, hx(edge[(Z, shell_of[m])] + 0.1)))
             w = dict(zip(q2, [core.parse_answer(o) for o in ctx.run_c(q2)]))
             for Z in range(1, 121):
-                num = den = 0.0; ok_ = True
+                num = den = 0.0; ok_ = True; ems = []
                 for m in memb:
                     pw = w['CS_FluorLine %d %d %s N' % (Z, m, hx(edge[(Z, shell_of[m])] + 0.1))]
                     if pw['kind'] != 'ok': ok_ = False; break
                     wt = pw['vals'][0]
                     em = val.get(('LineEnergy', Z, m), 0.0)
                     if em <= 0: continue                      # a member without a line energy does not enter the mean
-                    den += wt; num += em * wt
+                    den += wt; num += em * wt; ems.append(em)
                 if not ok_: continue
                 nlb += 1
                 co = c[cl.index('LineEnergy %d 3 E' % Z)]
-                exp = ('value ' + hx(num / den)) if den > 0 else 'fails'
+                # no weights at all: the plain mean of the members that have an energy; no member energy: an error
+                exp = ('value ' + hx(num / den)) if den > 0 else ('value ' + hx(sum(ems) / len(ems))) if ems else 'fails'
                 if not core.expect_agrees(co, exp, rel=1e-12, stats=stats):
                     viol.append(dict(key='LineEnergy %d 3 E' % Z, got=co, expected=(exp + (' = %r' % (num / den) if den > 0 else '')),
                                      what='L-beta energy: not the cross-section-weighted mean of its member lines (LB1-LB7, LB9, LB10, LB15, LB17, L3N6, L3N7; weights CS_FluorLine at edge + 0.1 keV)'))
@@ -100,10 +126,20 @@ class C10(Check):
         try:
             zl = list(range(-3, 126))
             eo = ctx.run_model(['spec.LineEnergyLB %d' % Z for Z in zl])
-            for Z, e_ in zip(zl, eo):
+            et = ctx.run_model(['spec.LineEnergyLBText %d' % Z for Z in zl])
+            for Z, e_, t_ in zip(zl, eo, et):
                 co = c[cl.index('LineEnergy %d 3 E' % Z)]
                 if not core.expect_agrees(co, e_, rel=1e-12, stats=stats):
                     viol.append(dict(key='LineEnergy %d 3 E' % Z, got=co, expected=e_, what='L-beta energy: library vs Spec.LineEnergyLB'))
+                elif not core.expect_agrees(co, t_, rel=1e-12, stats=stats):
+                    viol.append(dict(key='LineEnergy %d 3 E' % Z, got=co, expected=t_, what='L-beta energy: library vs the property text (Spec.LineEnergyLBText: weighted mean, plain-mean fallback)'))
+            # every grouped macro against the specification written from the property text (Spec/GroupsText.lean)
+            gl2 = [(Z, g) for Z in range(-3, 126) for g in GROUPS if g != 3]
+            tx = ctx.run_model(['spec.LineEnergyText %d %d' % zg for zg in gl2])
+            for (Z, g), t_ in zip(gl2, tx):
+                co = c[cl.index('LineEnergy %d %d E' % (Z, g))]
+                if not core.expect_agrees(co, t_, rel=1e-12, stats=stats):
+                    viol.append(dict(key='LineEnergy %d %d E' % (Z, g), got=co, expected=t_, what='group energy: library vs the property text (Spec.LineEnergyText: weighted mean of the members with an energy, plain-mean fallback, error when no member has one)'))
         except core.BuildError:
             pass
         stats.update(rule='exhaustive: Z in [-3,125] x every macro value in [-390,7] (all 383 lines, the 4 Siegbahn groups, 7 doublets, KO/KP, aliases share values) for LineEnergy and RadRate; '
